@@ -214,17 +214,7 @@ theorem histo_updateTotal_inv (U : UnitLaws A Dom Unit le) (env : Env) (h : Hist
 
 /-! ### every sequence of calls -/
 
-/-- a call on a `HistoWriter`: `WriteForLine(n, key, val)` or `UpdateTotal(total)` -/
-inductive HistoOp where
-  | line (n : Nat) (key : Bytes) (val : Int)
-  | total (t : Int)
-
-def Histo.applyOp (A : Arith α) (env : Env) (st : Histo × VirtualTerm) : HistoOp → Res (Histo × VirtualTerm)
-  | .line n key val => st.1.writeForLine A env st.2 (n : Int) key val
-  | .total t => st.1.updateTotal A env st.2 t
-
-def Histo.runOps (A : Arith α) (env : Env) (st : Histo × VirtualTerm) (ops : List HistoOp) : Res (Histo × VirtualTerm) :=
-  ops.foldlM (Histo.applyOp A env) st
+/- `HistoOp`, `Histo.applyOp`, `Histo.runOps` (a call on a `HistoWriter`, a sequence of calls) are in `Rare/Model/C14.lean`; the driver runs them. -/
 
 /-- the call is one the model answers without panic: the value is in the domain of the float instance and the
 line is not exactly `len(items)` (the real `WriteForLine` indexes out of range there – `line > len(items)` is its
